@@ -361,7 +361,25 @@ func (lex *lexer) AppendError(err error)  {
 }
 
 func (lex* lexer) Pos() ast.Position {
-    return ast.Position{Line: lex.line, Column: lex.ts - lex.lineStart + 1}
+    line, lineStart := lex.line, lex.lineStart
+    if lineStart > lex.ts {
+        // A keyword token extends over the white space that follows it. The
+        // newlines in that white space have been counted already; undo
+        // that to get the position of the first byte of the token.
+        for i := lex.ts; i < lineStart && i < len(lex.data); i++ {
+            if lex.data[i] == '\n' {
+                line--
+            }
+        }
+        lineStart = 0
+        for i := lex.ts - 1; i >= 0; i-- {
+            if lex.data[i] == '\n' {
+                lineStart = i + 1
+                break
+            }
+        }
+    }
+    return ast.Position{Line: line, Column: lex.ts - lineStart + 1}
 }
 
 func (lex* lexer) RecordPosition(n ast.Node, pos ast.Position) {
